@@ -34,7 +34,7 @@ def dense(rng, xs, ext):
 
 def generate(rng, tier):
     cases = []
-    for _ in range(260 if tier == "quick" else 6000):
+    for _ in range(gen.N(tier, 260, 6000)):
         kind = rng.choice(["lin", "bil", "nak", "nak", "nat", "mix", "mix", "par"])
         ext = rng.random() < 0.6
         if kind == "bil":
@@ -101,7 +101,7 @@ def generate(rng, tier):
         cases.append({"line": line, "meta": {"want": want, "full": True}})
     # i64 elements: affine / bilinear functions with integer coefficients are reproduced exactly in integer arithmetic too (every
     # secant slope is an exact integer quotient), in range and extrapolated
-    for _ in range(40 if tier == "quick" else 800):
+    for _ in range(gen.N(tier, 40, 800)):
         ext = rng.random() < 0.6
         trailing = gen.trailing_shape(rng, 1)
         L = gen.shape_size(trailing)
